@@ -8,6 +8,7 @@ package main
 import (
 	"bytes"
 	"fmt"
+	"math/rand"
 	"os"
 	"path/filepath"
 	"runtime"
@@ -82,7 +83,69 @@ func runLoader(loader string, data []byte) (outcome string) {
 	return "error"
 }
 
+// Two more child modes serve C12: a knowledge base is stored by one process and loaded, extended
+// with another rule, instantiated and run by ANOTHER process that has built nothing before (what
+// the binary format is for).
+//   child grbstore <file>          builds the fixed rule set and stores it
+//   child grbextend <file>         loads it, builds one more rule into it, runs an instance; prints RESULT ...
+const c12XText = `rule X1 "stored one" salience 5 { when F.A < 3 then F.A = F.A + 1; }
+rule X2 "stored two" { when F.A == 3 && F.B < 2 then F.B = F.B + 1; G.A = F.B; }`
+const c12XMore = `rule X3 "built by the loading process" salience -1 { when F.B == 2 && F.C < 1 then F.C = F.C + 1; }`
+
+func childGRB(mode, file string) int {
+	defer func() {
+		if p := recover(); p != nil {
+			fmt.Printf("RESULT panic %v\n", p)
+		}
+	}()
+	switch mode {
+	case "grbstore":
+		lib, err := BuildLib(c12XText)
+		if err != nil {
+			fmt.Println("RESULT builderror", err)
+			return 0
+		}
+		var b bytes.Buffer
+		if err := lib.StoreKnowledgeBaseToWriter(&b, kbName, kbVer); err != nil {
+			fmt.Println("RESULT storeerror", err)
+			return 0
+		}
+		if err := os.WriteFile(file, b.Bytes(), 0o644); err != nil {
+			return 2
+		}
+		fmt.Println("RESULT stored", b.Len())
+	case "grbextend":
+		data, err := os.ReadFile(file)
+		if err != nil {
+			return 2
+		}
+		lib := ast.NewKnowledgeLibrary()
+		if _, err := lib.LoadKnowledgeBaseFromReader(bytes.NewReader(data), true); err != nil {
+			fmt.Println("RESULT loaderror", err)
+			return 0
+		}
+		if err := builder.NewRuleBuilder(lib).BuildRuleFromResource(kbName, kbVer, pkg.NewBytesResource([]byte(c12XMore))); err != nil {
+			fmt.Println("RESULT extenderror", err)
+			return 0
+		}
+		inst, err := lib.NewKnowledgeBaseInstance(kbName, kbVer)
+		if err != nil {
+			fmt.Println("RESULT instanceerror", err)
+			return 0
+		}
+		st := GenState(rand.New(rand.NewSource(1)))
+		f := st["F"].(*Fact)
+		f.A, f.B, f.C = 0, 0, 0
+		res := Run(inst, nil, st, RunCfg{MaxCycle: 20, NoSnap: true})
+		fmt.Printf("RESULT ran A=%d B=%d C=%d err=%v panic=%v\n", f.A, f.B, f.C, res.Err, res.Panic)
+	}
+	return 0
+}
+
 func childMain(args []string) int {
+	if len(args) == 2 && (args[0] == "grbstore" || args[0] == "grbextend") {
+		return childGRB(args[0], args[1])
+	}
 	if len(args) < 4 {
 		return 2
 	}
